@@ -194,3 +194,43 @@ def env2(ctx):
     if n_prop < 8:
         raise AnchorMissing("only %d `forwards` hand-overs found" % n_prop)
     return r
+
+
+def env3(ctx):
+    """match_before_env and match_after_env are the same state loop run in two directions"""
+    import json
+    from engine_pol import Canon
+    r = RuleResult("ENV-3", "match_before_env and match_after_env share one state loop (how a failing state clears the verdict, when the loop stops): they differ in direction only", floor=3)
+    lib = ctx.lib
+    skel = {}
+    pol = {}
+    for fn in ("match_before_env", "match_after_env"):
+        b = ctx.fn(lib, SUB + fn)
+        root = b.hir["body"]
+        loops = [n for n in hirq.walk(root) if n["e"] == "loop"]
+        inits = [n for n in hirq.walk(root) if n["e"] == "let" and n["pat"].get("p") == "bind" and n["pat"].get("name") == "is_match"]
+        if len(loops) != 1 or len(inits) != 1:
+            raise AnchorMissing("%s: expected one state loop and one `is_match` initialisation (%d, %d)" % (fn, len(loops), len(inits)))
+        c = Canon()
+        # names are numbered in order of first use inside the compared fragments, so `word_rev` / `word` do not matter
+        s_init = json.dumps(c.expr(inits[0]["init"]), sort_keys=True, default=str)
+        s_loop = json.dumps(c.expr(loops[0]), sort_keys=True, default=str)
+        skel[fn] = (s_init, s_loop)
+        pol[fn] = list(c.pol)
+    same_init = skel["match_before_env"][0] == skel["match_after_env"][0]
+    same_loop = skel["match_before_env"][1] == skel["match_after_env"][1]
+    b = ctx.fn(lib, SUB + "match_before_env")
+    r.inst("`is_match` starts from the same expression in both", fn_loc(b), "ok" if same_init else "report")
+    if not same_init:
+        r.report("ENV-3|init", fn_loc(b), b.path, "match_before_env and match_after_env initialise their verdict differently")
+    r.inst("the state loops of both are the same code", fn_loc(b), "ok" if same_loop else "report")
+    if not same_loop:
+        r.report("ENV-3|loop", fn_loc(b), b.path,
+                 "the state loop of match_before_env is not the same code as that of match_after_env: a failing state is treated differently before and after the target (e.g. an exception `| p i _` judged by its last element only)")
+    if same_loop and same_init:
+        diff = [i for i, (x, y) in enumerate(zip(pol["match_before_env"], pol["match_after_env"])) if x != y]
+        ok = len(diff) == 1
+        r.inst("the two differ in exactly one polarity atom (the direction flag)", fn_loc(b), "ok" if ok else "report")
+        if not ok:
+            r.report("ENV-3|polarity", fn_loc(b), b.path, "besides the direction flag the two loops differ in %d boolean literals / comparisons" % (len(diff) - 1))
+    return r
